@@ -22,7 +22,7 @@ from ..term import Resolver, pmatch
 COV = "inference/gp/covariance.py"
 MEAN = "inference/gp/mean.py"
 FLOORS = {"returned-as-computed": 2, "state-refreshed": 1, "float-arithmetic": 3, "mean-gradient-depends": 2, "mean-gradient-form": 3, "kernel-derivative-terms": 2,
-          "gradient-cov-rank": 1, "variance-derivative-form": 1, "gradient-mean-form": 2, "arguments-not-mutated": 12}
+          "gradient-cov-rank": 1, "variance-derivative-form": 1, "gradient-mean-form": 2, "arguments-not-mutated": 12, "axis-order": 2}
 
 
 def _roles(fn):
@@ -95,6 +95,20 @@ def _returned_as_computed(c, fn):
 
 
 def run(prog, tier):
+    # axis order of the vectorised forms first: a definite scramble stands even when the per-point rules below cannot read a
+    # restructured predictor
+    from .axrules import gp_axis_obligations
+    ax = gp_axis_obligations(prog, "axis-order", ["gradient", "spatial_derivatives"])
+    try:
+        obs, floors, meta = _run_main(prog, tier)
+    except AnalysisError:
+        if any(not o.ok for o in ax):
+            return ax, {}, {"explanation": "axes scrambled in a derivative predictor; remaining rules not evaluated"}
+        raise
+    return ax + obs, floors, meta
+
+
+def _run_main(prog, tier):
     obs, info = [], []
     for mname in ("gradient", "spatial_derivatives"):
         c_, fn_ = prog.method("GpRegressor", mname)
